@@ -30,6 +30,7 @@ type witness struct {
 	// KnownFor: this witness misbehaves on the unchanged tree (it is the witness of recorded known
 	// findings); it replays only these obligations, so that it is never attributed to anything else
 	KnownFor []string `json:"known_for"`
+	Args     []string `json:"args"` // extra goose flags (e.g. -typecheck)
 }
 
 type witnessOutcome struct {
@@ -92,6 +93,7 @@ func (pc *propCheck) runWitness(w *witness, extraArgs ...string) witnessOutcome 
 	ctx, cancel := context.WithTimeout(context.Background(), 60*time.Second)
 	defer cancel()
 	args := append([]string{"-out", outDir}, extraArgs...)
+	args = append(args, w.Args...)
 	args = append(args, "./...")
 	cmd := exec.CommandContext(ctx, bin, args...)
 	cmd.Dir = w.Dir
@@ -292,8 +294,10 @@ func (pc *propCheck) replayCommand() replayResult {
 	code, log := run(out1, "./...")
 	goodV := filepath.Join(out1, "example_com", "cmdw", "good.v")
 	badV := filepath.Join(out1, "example_com", "cmdw", "bad.v")
-	if code != 1 {
-		return fail("goose ./... on a module with one untranslatable package exits %d, expected 1\n%s", code, firstLine(log))
+	crashed := func(l string) bool { return strings.Contains(l, "goroutine ") || strings.Contains(l, "panic:") }
+	if code == 0 || crashed(log) {
+		// (any non-zero status reports the failure)
+		return fail("goose ./... on a module with untranslatable packages exits %d (crashed: %v), expected a non-zero status and no crash\n%s", code, crashed(log), firstLine(log))
 	}
 	if !exists(goodV) {
 		return fail("goose ./... did not write %s for the package that translated", goodV)
@@ -302,9 +306,9 @@ func (pc *propCheck) replayCommand() replayResult {
 		return fail("goose ./... wrote %s for a package with a conversion error (no -ignore-errors)", badV)
 	}
 	out2, _ := os.MkdirTemp(pc.WorkDir, "cmd2-")
-	code, _ = run(out2, "-ignore-errors", "./...")
-	if code != 1 {
-		return fail("goose -ignore-errors ./... exits %d although a package failed, expected 1", code)
+	code, log = run(out2, "-ignore-errors", "./...")
+	if code == 0 || crashed(log) {
+		return fail("goose -ignore-errors ./... exits %d (crashed: %v) although a package failed, expected a non-zero status and no crash", code, crashed(log))
 	}
 	if b, err := os.ReadFile(filepath.Join(out2, "example_com", "cmdw", "bad.v")); err != nil || !strings.Contains(string(b), "Definition Ok") || strings.Contains(string(b), "Definition Bad") {
 		return fail("goose -ignore-errors: bad.v should contain exactly the declarations that translated (Ok, not Bad); err=%v", err)
@@ -343,6 +347,29 @@ func (pc *propCheck) replayCommand() replayResult {
 	code, log = run(out1, "./nonexistent-pattern-xyz")
 	if code == 0 {
 		return fail("goose on a pattern matching nothing exits 0")
+	}
+	// exit statuses are taken modulo 256 by the operating system: 256 failing packages must still
+	// give a non-zero status
+	many, _ := os.MkdirTemp(pc.WorkDir, "many-")
+	os.WriteFile(filepath.Join(many, "go.mod"), []byte("module example.com/many\n\ngo 1.22\n"), 0o644)
+	for i := 0; i < 256; i++ {
+		d := filepath.Join(many, fmt.Sprintf("p%03d", i))
+		os.MkdirAll(d, 0o755)
+		os.WriteFile(filepath.Join(d, "p.go"), []byte(fmt.Sprintf("package p%03d\n\nfunc Bad(x uint64) uint64 {\n\tswitch x {\n\tcase 1:\n\t\treturn 2\n\t}\n\treturn 0\n}\n", i)), 0o644)
+	}
+	outMany, _ := os.MkdirTemp(pc.WorkDir, "manyout-")
+	cmd := exec.Command(bin, "-out", outMany, "./...")
+	cmd.Dir = many
+	cmd.Env = append(os.Environ(), "GOFLAGS=-mod=mod", "GOPROXY=off", "GOSUMDB=off", "GOTOOLCHAIN=local")
+	err := cmd.Run()
+	mcode := 0
+	if ee, ok := err.(*exec.ExitError); ok {
+		mcode = ee.ExitCode()
+	} else if err != nil {
+		mcode = -1
+	}
+	if mcode == 0 {
+		return fail("goose ./... on a module in which all 256 packages fail to translate exits 0")
 	}
 	return r
 }
